@@ -848,7 +848,68 @@ def rule_r5(ctx) -> List[R.Inst]:
     else:
         insts.append(R.viol(rid, "Snapper:sorted-table", file, fn.node.lineno,
                             "bisect requires the fraction table sorted by value", construct="Snapper table / bisect"))
+    insts.extend(_snapper_table_complete(M, init, rid, file))
     return insts
+
+
+def _snapper_table_complete(M, init, rid, file) -> List[R.Inst]:
+    """the table holds EVERY fraction num/den with den up to the maximum: cells may be blanked only because they are outside the
+    triangle (num >= den), repeat 0, or repeat an earlier value — `np.triu_indices(n, 1)`, `[1:, 0]`, the visited-set loop, or
+    the mask `gcd(num, den) != 1` over the index arrays (a fraction repeats an earlier one exactly when it is not in lowest terms).
+    Any wider mask removes a grid position: an object exactly on it is written a neighbour's distance off."""
+    key = "Snapper:table-complete"
+    node = init.node
+    blanks = [n for n in walk_no_nested(node) if isinstance(n, ast.Assign) and len(n.targets) == 1 and isinstance(n.targets[0], ast.Subscript) and
+              isinstance(n.targets[0].value, ast.Name) and unparse(n.value) in ("np.nan", "nan", "numpy.nan", "float('nan')", "math.nan")]
+    if not blanks:
+        return [R.undec(rid, key, file, node.lineno, "construction of the fraction table not recognised")]
+    idx = {}     # names of the index arrays: den, num = np.indices(..); den += 1
+    for n in walk_no_nested(node):
+        if isinstance(n, ast.Assign) and isinstance(n.targets[0], ast.Tuple) and len(n.targets[0].elts) == 2 and isinstance(n.value, ast.Call) and \
+                call_name(n.value) == "indices" and all(isinstance(t, ast.Name) for t in n.targets[0].elts):
+            idx = {"den": n.targets[0].elts[0].id, "num": n.targets[0].elts[1].id}
+    bad, und = [], []
+    for b in blanks:
+        sl = b.targets[0].slice
+        t = unparse(b.targets[0]).replace(" ", "")
+        t = t[t.index("[") + 1:-1]
+        in_loop = any(isinstance(l, ast.For) and any(x is b for x in ast.walk(l)) for l in walk_no_nested(node))
+        if in_loop:
+            # visited-set form: blank only under `if <cell> in visited`
+            guard = next((i for i in ast.walk(node) if isinstance(i, ast.If) and any(x is b for x in i.body)), None)
+            ok_ = guard is not None and isinstance(guard.test, ast.Compare) and isinstance(guard.test.ops[0], ast.In) and \
+                unparse(guard.test.left) == unparse(b.targets[0]) and \
+                any(isinstance(x, ast.Call) and call_name(x) == "add" and unparse(x.args[0]) == unparse(b.targets[0]) for o in guard.orelse for x in ast.walk(o))
+            if not ok_:
+                und.append(b)
+            continue
+        if isinstance(sl, ast.Call) and call_name(sl) == "triu_indices" and len(sl.args) == 2 and unparse(sl.args[1]) == "1":
+            continue
+        if t == "1:,0":
+            continue
+        if isinstance(sl, ast.Compare) and len(sl.ops) == 1 and isinstance(sl.left, ast.Call) and call_name(sl.left) == "gcd" and \
+                len(sl.left.args) == 2 and idx:
+            a = sorted(unparse(x) for x in sl.left.args)
+            right = unparse(sl.comparators[0])
+            if a == sorted(idx.values()) and ((isinstance(sl.ops[0], ast.NotEq) and right == "1") or (isinstance(sl.ops[0], ast.Gt) and right == "1")):
+                continue
+            if a == sorted(idx.values()):
+                bad.append((b, f"blanks the cells with gcd {type(sl.ops[0]).__name__} {right}"))
+            else:
+                und.append(b)
+            continue
+        if isinstance(sl, ast.BinOp) and isinstance(sl.op, ast.BitOr):
+            bad.append((b, f"the mask '{unparse(sl)[:70]}' blanks more than the repeated fractions"))
+            continue
+        und.append(b)
+    if bad:
+        b, why = bad[0]
+        return [R.viol(rid, key, file, b.lineno,
+                       f"{why}: a position of the snap grid disappears, and an object exactly on it is moved to a neighbouring fraction "
+                       f"(positions on the grid must be exact)", construct=f"Snapper table: {unparse(b)[:100]}")]
+    if und:
+        return [R.undec(rid, key, file, und[0].lineno, f"blanking '{unparse(und[0])[:80]}' is not one of: outside the triangle / zero column / repeated value")]
+    return [R.ok(rid, key, file, blanks[0].lineno, idiom="only cells outside the triangle, repeated zeros and repeated values are blanked")]
 
 
 def rule_r6(ctx) -> List[R.Inst]:
